@@ -10,6 +10,7 @@ import (
 	"crypto/rand"
 	"fmt"
 	"math/big"
+	"os"
 	"sort"
 	"strings"
 
@@ -343,6 +344,24 @@ type RunDesc struct {
 	Attacks   []Attack `json:"attacks"`
 	OrderSeed uint64   `json:"order_seed"`
 	Shuffle   bool     `json:"shuffle"` // false: every member sees the natural order
+	// CrashSkip: Initiate calls that killed the whole process in an earlier attempt (a panic in a
+	// goroutine the implementation spawned cannot be recovered in-process). The seat is observed as
+	// failed at that point instead, like a fatal error of its Initiate. Filled in by RunChild.
+	CrashSkip []CrashPoint `json:"crash_skip,omitempty"`
+}
+
+type CrashPoint struct {
+	Phase  int `json:"phase"`
+	Member int `json:"member"`
+}
+
+func (d RunDesc) skips(phase, member int) bool {
+	for _, c := range d.CrashSkip {
+		if c.Phase == phase && c.Member == member {
+			return true
+		}
+	}
+	return false
 }
 
 type mem struct {
@@ -354,6 +373,9 @@ type mem struct {
 	why     string
 	coefA   []*big.Int
 	coefB   []*big.Int
+	// phase 12: the public key shares, read as soon as the member's own goroutine delivered them
+	ps       map[group.MemberIndex]*bn256.G2
+	advanced bool
 }
 
 type runner struct {
@@ -656,8 +678,34 @@ func Execute(d RunDesc) lib.Case {
 				continue
 			}
 			m.ch.sent = nil
+			if d.skips(phase, m.id) {
+				m.dead, m.why = true, fmt.Sprintf("PANIC phase %d: Initiate killed the process (panic in a goroutine of the implementation)", phase)
+				continue
+			}
+			// markers for RunChild: which Initiate was running when the process died
+			fmt.Fprintf(os.Stderr, "VERIF-INITIATE %d %d\n", phase, m.id)
 			st := m.st
 			err, panicked := safely(func() error { return st.Initiate(context.Background()) })
+			if phase == 12 && err == nil {
+				// ComputeGroupPublicKeyShares works in a goroutine that outlives Initiate: step to the
+				// finalization state now and wait for the goroutine's result, so that a panic in it is
+				// attributed to this member (no messages are exchanged in this phase)
+				var nx state.SyncState
+				err, _ = safely(func() error {
+					var e error
+					nx, e = st.Next()
+					return e
+				})
+				if err == nil && nx != nil {
+					m.st, m.advanced = nx, true
+					if v := r.view(m); v != nil && v.Result != nil {
+						m.ps = v.Result.GroupPublicKeyShares()
+					}
+				} else if err == nil {
+					err = fmt.Errorf("no next state")
+				}
+			}
+			fmt.Fprintf(os.Stderr, "VERIF-RETURNED %d %d\n", phase, m.id)
 			if err != nil {
 				m.dead, m.why = true, fmt.Sprintf("phase %d: %v", phase, err)
 				if panicked {
@@ -749,7 +797,7 @@ func Execute(d RunDesc) lib.Case {
 			}
 		}
 		for _, m := range r.ms {
-			if m.dead {
+			if m.dead || m.advanced {
 				continue
 			}
 			st := m.st
@@ -814,7 +862,11 @@ func (r *runner) emit() lib.Case {
 			m.dead, m.why = true, "did not reach the finalization state"
 			continue
 		}
-		fins[m.id] = &fin{v: v, share: v.Result.GroupPrivateKeyShare, ps: v.Result.GroupPublicKeyShares()}
+		ps := m.ps
+		if ps == nil {
+			ps = v.Result.GroupPublicKeyShares()
+		}
+		fins[m.id] = &fin{v: v, share: v.Result.GroupPrivateKeyShare, ps: ps}
 	}
 	kids := map[string]int{}
 	var obsCoq []string
